@@ -132,6 +132,11 @@ func (s *State) ParseConfig(data []byte, fName string) (
 func checkRaw(c *NsxConfig) error {
 	re := regexp.MustCompile(`^r\d`)
 	for _, p := range c.Policies {
+		if !strings.HasPrefix(p.Id, "Netspoc") {
+			return fmt.Errorf(
+				"Must only define policy where name has prefix 'Netspoc': %s",
+				p.Id)
+		}
 		for _, r := range p.Rules {
 			if re.MatchString(r.Id) {
 				return fmt.Errorf(
